@@ -244,6 +244,11 @@ var routings = []struct{ id, expr string }{
 	{"macroexpand-passthru-rest", "(car (cdr (macroexpand '(passthru (mac-rest 3 1 2)))))"},
 	{"macroexpand-1-rest", "(car (cdr (macroexpand-1 '(mac-rest 3 1 2))))"},
 	{"macroexpand-passthru2-rest", "(car (cdr (macroexpand '(passthru (passthru (mac-rest 3 1 2))))))"},
+	// a quote applied to something already quoted: the datum sits UNDER a quote node of the parsed tree and eval
+	// unwraps it (%q = the literal in bracket spelling, itself a quoted list)
+	{"double-quoted-eval", "(eval '%s)"},
+	{"quoted-bracket-eval", "(eval '%q)"},
+	{"double-quoted-nested-eval", "(eval (car (cdr '(0 '%s))))"},
 }
 
 var literals = []struct{ id, text string }{
@@ -286,6 +291,11 @@ func routeProgram(c callable, pos int, fill []string, rt, lit, mut int) string {
 	}
 	r := routings[rt].expr
 	r = strings.ReplaceAll(r, "%b", strings.TrimPrefix(literals[lit].text, "'"))
+	if t := literals[lit].text; strings.HasPrefix(t, "'(") {
+		r = strings.ReplaceAll(r, "%q", "["+t[2:len(t)-1]+"]")
+	} else {
+		r = strings.ReplaceAll(r, "%q", t)
+	}
 	if strings.Contains(r, "%s") {
 		r = fmt.Sprintf(r, literals[lit].text)
 	}
@@ -378,11 +388,11 @@ func tableRouting(r *core.Run) {
 	}
 	var jobs []job
 	nfill := 3
-	rts := []int{0, 1, 2, 4, 6, 7, 8, 10, 12, 13, 16, 18}
+	rts := []int{0, 1, 2, 4, 6, 7, 8, 10, 12, 13, 16, 18, 21, 22}
 	lits := []int{0, 1}
 	if r.Thorough() {
 		nfill = 5
-		rts = []int{0, 1, 2, 3, 4, 5, 6, 7, 8, 9, 10, 11, 12, 13, 14, 15, 16, 17, 18, 19, 20}
+		rts = []int{0, 1, 2, 3, 4, 5, 6, 7, 8, 9, 10, 11, 12, 13, 14, 15, 16, 17, 18, 19, 20, 21, 22, 23}
 		lits = []int{0, 1, 2, 3}
 	}
 	for _, c := range cs {
